@@ -99,6 +99,28 @@ def calls_of(h):
 
 
 def sample(hs: list, n: int, seed: int) -> list:
+    """n histories, stratified by the sequence of call names: every combination of calls that occurs is kept with as many argument
+    combinations as the budget allows (round robin over the groups, each group in seeded random order)."""
     if len(hs) <= n:
         return list(hs)
-    return random.Random(seed).sample(hs, n)
+    rnd = random.Random(seed)
+    groups: dict = {}
+    for h in hs:
+        calls = h["h"] if isinstance(h, dict) and "h" in h else h
+        groups.setdefault(tuple(c["act"] for c in calls), []).append(h)
+    for g in groups.values():
+        rnd.shuffle(g)
+    order = sorted(groups)
+    out, k = [], 0
+    while len(out) < n:
+        took = False
+        for key in order:
+            if k < len(groups[key]):
+                out.append(groups[key][k])
+                took = True
+                if len(out) >= n:
+                    break
+        if not took:
+            break
+        k += 1
+    return out
